@@ -246,6 +246,14 @@ def pauli_table_sites(ctx: Ctx, rule: str) -> None:
     ob(site_of(mi, fn), 'bsf_wt(sparse bits of IXYZ)', _int(v), 3, 'bsf_wt|sparse[IXYZ]')
     v = _single(ctx, rule, mi, fn, _run_fn(ctx, rule, mi, fn, [MiniCSR(np.array([WORD_BSF]), store=UNSORTED)]))
     ob(site_of(mi, fn), 'bsf_wt(sparse bits of IXYZ, indices stored Z-before-X)', _int(v), 3, 'bsf_wt|sparse-unsorted')
+    # weights above 255 in the dtype the library produces (pauli_to_bsf / generate give uint8): counting with a
+    # fixed-width accumulator wraps
+    for label, word in (('all Y', 'Y' * 300), ('X then Y', 'X' * 40 + 'Y' * 260)):
+        big = np.array([1 if c in 'XY' else 0 for c in word] + [1 if c in 'YZ' else 0 for c in word], dtype=np.uint8)
+        v = _single(ctx, rule, mi, fn, _run_fn(ctx, rule, mi, fn, [big]))
+        ob(site_of(mi, fn), f'bsf_wt(dense uint8, {label} on 300 qubits)', _int(v), 300, f'bsf_wt|dense-uint8[{label}]')
+        v = _single(ctx, rule, mi, fn, _run_fn(ctx, rule, mi, fn, [MiniCSR(big.reshape(1, -1))]))
+        ob(site_of(mi, fn), f'bsf_wt(sparse uint8, {label} on 300 qubits)', _int(v), 300, f'bsf_wt|sparse-uint8[{label}]')
     stack = [[1, 0, 0, 0], [1, 0, 1, 0], [0, 1, 0, 0]]          # X on qubit 0 twice (once as Y), Z... : rows XI, YI, IX
     vd = _single(ctx, rule, mi, fn, _run_fn(ctx, rule, mi, fn, [np.array(stack)]))
     vs = _single(ctx, rule, mi, fn, _run_fn(ctx, rule, mi, fn, [MiniCSR(np.array(stack))]))
